@@ -82,6 +82,9 @@ func profileConfig(p string, seed uint64) RunConfig {
 	case "C08":
 		c.NSMF = 2 + r.IntN(3)
 		c.CoLoc = r.IntN(3) == 0
+		if r.IntN(3) == 0 {
+			c.Faults = append(c.Faults, "dp") // requests the data plane refuses in part
+		}
 		if r.IntN(2) == 0 {
 			c.Faults = append(c.Faults, "n4")
 		}
@@ -108,6 +111,9 @@ func profileConfig(p string, seed uint64) RunConfig {
 			c.MaxRetrans = 1 + r.IntN(3)
 		}
 	case "C11":
+		if r.IntN(3) == 0 {
+			c.Faults = append(c.Faults, "dp-empty-del") // a URR removal that yields no final report
+		}
 		if r.IntN(2) == 0 {
 			// a report whose first transmission fails is retransmitted later: the numbering
 			// must not notice
@@ -240,6 +246,12 @@ func newGen(s *Sim) *Gen {
 	case "C05":
 		g.w = map[string]int{"hb": 1, "est": 10, "mod": 12, "del": 5, "reassoc": 3, "krep": 4, "kbuf": 4, "ansseid0": 3, "takeover": 1, "adv": 1}
 		g.w["ans"] = 2
+		if s.cfg.Seed%3 == 0 {
+			// several sessions sharing period groups: one session leaving a group must not
+			// take the others' registrations with it
+			g.perioOK = true
+			g.w["modurr"] = 6
+		}
 	case "C06":
 		g.w = map[string]int{"hb": 6, "assoc": 2, "est": 6, "mod": 8, "del": 3, "other": 3, "dup": 14, "hold": 4, "deliver": 5, "adv": 8, "advwin": 4, "sameseq": 6}
 		if s.cfg.Seed%2 == 0 {
@@ -250,6 +262,9 @@ func newGen(s *Sim) *Gen {
 	case "C08":
 		g.w = map[string]int{"hb": 4, "assoc": 2, "reassoc": 1, "est": 8, "mod": 8, "del": 3, "adv": 3, "advbig": 2, "badest": 5, "probe": 4, "other": 2, "unknownpeer": 2}
 		g.perioOK = false
+		if s.cfg.faultOn("dp") {
+			g.w["fault"], g.w["reassoc"] = 5, 3
+		}
 	case "C09":
 		g.w = map[string]int{"hb": 1, "est": 5, "mod": 2, "krep": 12, "kbufnocp": 5, "ans": 12, "adv": 8, "advrt": 8, "del": 1}
 		if s.cfg.KernLatency > 0 {
@@ -258,6 +273,9 @@ func newGen(s *Sim) *Gen {
 	case "C10", "C11", "C12":
 		g.w = map[string]int{"hb": 1, "est": 6, "mod": 16, "del": 3, "krep": 8, "adv": 3, "reassoc": 1}
 		g.perioOK = true
+		if s.cfg.faultOn("dp-empty-del") {
+			g.w["fault"] = 4
+		}
 		if p == "C10" {
 			g.w["krepbad"] = 3
 			g.w["takeover"] = 1
@@ -1053,6 +1071,10 @@ func (g *Gen) one() (Action, bool) {
 	case "advp":
 		return Action{Op: "adv", Ms: int64(pick(g.rng, 1000, 2000, 3000, 5000, 10000, 500, 30000))}, true
 	case "fault":
+		if g.s.cfg.faultOn("dp-empty-del") {
+			// the removal of a URR answered without the final report attributes
+			return Action{Op: "fault", Fault: &FaultSpec{Op: "del", Kind: "urr", Skip: g.intn(3), Empty: true}}, true
+		}
 		f := &FaultSpec{Op: pick(g.rng, "add-create", "add-create", "add-update", "report", "multi", "get", "any"), Skip: g.intn(6),
 			Errno: pick(g.rng, 17, 2, 12, 16, 22), Late: g.chance(0.35)}
 		if g.chance(0.5) {
